@@ -165,7 +165,8 @@ def main():
     ck.cov['trusted_base'] = ['Coq 8.16.1 kernel', 'Isa.v (spec) and IsaMon.v (access lists + monitor, proved complete and sound against Isa.step)',
                               'XSem.v (spec) only to decide which programs are well-defined', 'ExtrOcamlBasic extraction + ocaml/xdrv.ml (run loop calling IsaMon.state_ok / acc_ok each step)',
                               'region boundaries taken from the listing `xcmp -S` (DATA directives, label _exit) of the same source']
-    ck.assumptions = ['well-defined = extracted XSem says Behaviour; others are counted and dropped',
+    ck.assumptions = ['machine capacity: the X definition (XSem) knows no memory size; a program whose image, global arrays and reserved words exceed the 200000-word memory is rejected by the (repaired, 2d62c7c) compiler and counted, after an independent check that it really does not fit (coverage.rejected_because_program_and_arrays_exceed_the_memory); a run whose STACK outgrows the free memory is outside the quantifier (C01: bounded stack depth; C08: recursion up to the stack budget) -- the boundary programs choose their depth from the frame accounting, and C01_program_partial carries the static bound nwords + 2000*maxframe <= sp0 in model_compile\'s validation; C01_full / C08_full as Definitions do not state a capacity hypothesis and are false of any compiler for a finite machine without it',
+                     'well-defined = extracted XSem says Behaviour; others are counted and dropped',
                       'code words = image words that are not DATA directives; free memory = words from the end of the image to 199999',
                       'boundary programs are sized from the measured stack use of the real binary (lowest mem[1] reached on the ISA)',
                       'proved part (Properties_C08.v): the monitor is complete and sound for ALL runs; and, for the statement fragment (get included: the byte read goes to the outgoing word sp+1) '
